@@ -42,7 +42,7 @@ def _expr(rng, depth=0):
         return q + body + q
     if r < 0.82:
         return rng.choice(['f"a{x}b"', "f'{x!r:>{y}}'", 'f"""m\n{x}\nn"""', "f'{x}' 'lit'", "'a' 'b'", "'a' \\\n    'b'",
-                           "('p'\n 'q')", "rf'\\d{x}'", 'f"{x}" f"{y}"'])
+                           "('p'\n 'q')", "rf'\\d{x}'", 'f"{x}" f"{y}"', 'f"{x=}"', 'f"{x = !r:>5} z {y=}"'])
     if r < 0.88:
         return "{%s: %s}" % (_expr(rng, depth + 1), _expr(rng, depth + 1))
     if r < 0.93:
